@@ -695,3 +695,30 @@ Proof.
   destruct (unmarshal_srd s) as [[p' s']| |]; try contradiction.
   destruct Ag as (<- & C & N). exists s'. repeat split; assumption.
 Qed.
+
+(* ==== 6. consequences: lossless and self-delimiting =========================================== *)
+(* no encoding is a prefix of another one followed by anything: the boundary between two packets
+   on a stream is determined by the bytes alone *)
+Theorem wire_prefix_free p q r1 r2 : wf p = true -> wf q = true ->
+  wire p ++ r1 = wire q ++ r2 -> p = q /\ r1 = r2.
+Proof.
+  intros Hp Hq E.
+  assert (Hs : no_empty [wire p ++ r1]).
+  { constructor; [|constructor]. intros H. apply app_eq_nil in H. destruct (wire_nonempty p Hp). tauto. }
+  destruct (unmarshal_wire p Hp [wire p ++ r1] r1 Hs) as (s1 & E1 & C1 & _); [cbn [concat]; apply app_nil_r|].
+  destruct (unmarshal_wire q Hq [wire p ++ r1] r2 Hs) as (s2 & E2 & C2 & _); [cbn [concat]; rewrite app_nil_r; exact E|].
+  rewrite E1 in E2. injection E2 as -> ->. split; [reflexivity | congruence].
+Qed.
+
+Corollary marshal_injective p q b : wf p = true -> wf q = true -> marshal p = Ok b -> marshal q = Ok b -> p = q.
+Proof.
+  intros Hp Hq Ep Eq. rewrite marshal_wf in Ep, Eq by assumption. injection Ep as <-. injection Eq as Eq.
+  apply (wire_prefix_free p q [] [] Hp Hq). rewrite Eq. reflexivity.
+Qed.
+
+Theorem marshal_stream_prefix_free p q r1 r2 : wf_stream p = true -> wf_stream q = true ->
+  marshal_stream p ++ r1 = marshal_stream q ++ r2 -> p = q /\ r1 = r2.
+Proof.
+  intros Hp Hq E. pose proof (unmarshal_stream_marshal_stream p r1 Hp) as E1.
+  rewrite E, unmarshal_stream_marshal_stream in E1 by exact Hq. injection E1 as -> ->. split; reflexivity.
+Qed.
